@@ -44,6 +44,17 @@ pub mod verif_packet {
     pub use super::session::verif_packet::*;
 }
 
+/// Verification hooks (feature `verif` only): access to the private BTP session and to the
+/// non-blocking halves of `Btp::send` / `Btp::recv`. Add-only; nothing changes with the feature off.
+#[cfg(feature = "verif")]
+pub mod verif_btp {
+    pub use super::session::Session;
+    pub const ACK_TIMEOUT_SECS: u8 = super::session::BTP_ACK_TIMEOUT_SECS;
+    pub const CONN_IDLE_TIMEOUT_SECS: u8 = super::session::BTP_CONN_IDLE_TIMEOUT_SECS;
+    pub const MIN_MTU: u16 = super::MIN_MTU;
+    pub const MAX_MTU: u16 = super::MAX_MTU;
+}
+
 /// The maximum size of a BTP segment.
 pub(crate) const MAX_BTP_SEGMENT_SIZE: usize = 244;
 /// The size of the GATT header. `MAX_BTP_SEGMENT_SIZE` + `GATT_HEADER_SIZE` is 247 bytes, which is the maximum ATT MTU size supported by the BTP protocol.
@@ -314,6 +325,41 @@ impl Btp {
 
             self.send_notif.wait().await;
         }
+    }
+}
+
+#[cfg(feature = "verif")]
+impl Btp {
+    /// `BtpInner::send` without the async wait: `Ok(false)` when an SDU is already queued.
+    pub fn verif_send(&self, data: &[u8], addr: BtAddr) -> Result<bool, Error> {
+        self.inner.lock(|inner| inner.borrow_mut().send(data, addr))
+    }
+
+    /// `BtpInner::recv` without the async wait: `Ok(None)` when no complete SDU is buffered.
+    pub fn verif_recv(&self, buf: &mut [u8]) -> Result<Option<(usize, BtAddr)>, Error> {
+        self.inner.lock(|inner| inner.borrow_mut().recv(buf))
+    }
+
+    /// `Session::is_ack_due` with the configured ACK timeout at the current instant.
+    pub fn verif_is_ack_due(&self) -> bool {
+        self.inner.lock(|inner| {
+            let inner = inner.borrow();
+            inner
+                .session
+                .is_ack_due(Instant::now(), inner.ack_timeout_secs as _)
+        })
+    }
+
+    /// Snapshot of the session's window fields (see `Session::verif_state`) + the outgoing SDU (len, offset).
+    pub fn verif_state(&self) -> ([u32; 12], usize, usize) {
+        self.inner.lock(|inner| {
+            let inner = inner.borrow();
+            (
+                inner.session.verif_state(),
+                inner.outgoing_sdu.buf.len(),
+                inner.outgoing_sdu.buf_offset,
+            )
+        })
     }
 }
 
